@@ -37,7 +37,9 @@ from cnfgen.formula.basecnf import BaseCNF
 RULE = ("d_*: command lines synthesised from the argparse parsers: sub-command x flag subsets (all spellings, all "
         "placements) x tokens around validator bounds x wrong arities x graph-argument shapes; distinct = distinct "
         "(tool, sub-command, argv); a case is trivial when argv is empty")
-ASSUMPTIONS = ["dispatch models argparse on the fragment: exact option strings, arguments not starting with '-' "
+ASSUMPTIONS = ["values the model keeps opaque (`?`: random vectors, graphs built from the formula's size) are not compared",
+               "tseitin with a graph FILE is `unsupported` in the model (it cannot know `G.order()`); constructed graphs are handled",
+               "dispatch models argparse on the fragment: exact option strings, arguments not starting with '-' "
                "(or negative numbers); abbreviations, --opt=value, clustered short flags, '--', -h are outside",
                "graph arguments are opaque token lists on both sides (make_graph_from_spec is stubbed): what it builds "
                "or refuses is C15's subject"]
@@ -150,9 +152,7 @@ def fmt_val(v, tool_class, key=None):
         return "G" + v.kind + ":" + "/".join(fmt_str(t) for t in v.toks)
     if isinstance(v, BaseCNF):
         return "PF"
-    if isinstance(v, (list, tuple)) and all(isinstance(x, int) and not isinstance(x, bool) for x in v):
-        return "L" + ",".join(str(x) for x in v)
-    return "?"
+    return "?"      # lists (charge vectors, planted assignments), opaque stubs
 
 
 def fmt_call(rec, tool_class):
@@ -181,7 +181,46 @@ def run_real(tool, kind, name, argv):
             return "ERR " + type(e).__name__
     if len(RECORD) != 1:
         return "OK CALLS {}".format(len(RECORD))
+    if order_unknown(name, RECORD[0]):
+        return "UNSUPPORTED"
     return "OK " + fmt_call(RECORD[0], fc)
+
+
+def order_unknown(name, rec):
+    """`tseitin` tests `G.order() < 1`: the model knows that a CONSTRUCTED graph has a vertex, it does not know
+    the order of a graph read from a file (the stub graph has 4 vertices): such lines are `unsupported`"""
+    if name != "tseitin":
+        return False
+    for v in rec[1]:
+        if isinstance(v, GraphStub) and (not v.toks or v.toks[0] not in CONSTRUCTIONS.get(v.kind, ())):
+            return True
+    return False
+
+
+MODEL = {}     # request line -> answer of the driver (filled in bulk by cases())
+
+
+def model_answer(reqline):
+    if reqline not in MODEL:
+        MODEL[reqline] = common.run_driver([reqline])[0]
+    return MODEL[reqline]
+
+
+def mask(real, model):
+    """the model marks with `?` the values it keeps opaque (random vectors, graphs built from the formula's
+    size …): those positions of the real call are not compared"""
+    r, m = real.split(" "), model.split(" ")
+    if len(r) != len(m):
+        return real
+    out = []
+    for a, b in zip(r, m):
+        if b == "?":
+            out.append("?")
+        elif "=" in a and "=" in b and b.split("=", 1)[1] == "?" and a.split("=", 1)[0] == b.split("=", 1)[0]:
+            out.append(b)
+        else:
+            out.append(a)
+    return " ".join(out)
 
 
 def dispatch_req(kind, name, argv):
@@ -204,6 +243,22 @@ def subparsers():
     return out
 
 
+def compose_parsers(action):
+    """(parser1, parser2) of an action built by `compose_two_parsers` with the default test, else None"""
+    call = getattr(type(action), "__call__", None)
+    code = getattr(call, "__code__", None)
+    clo = getattr(call, "__closure__", None)
+    if code is None or clo is None or type(action).__name__ != "TmpAction":
+        return None
+    env = dict(zip(code.co_freevars, clo))
+    try:
+        if env["test"].cell_contents not in (None,) and getattr(env["test"].cell_contents, "__name__", "") != "is_first_a_number":
+            return None
+        return env["parser1"].cell_contents, env["parser2"].cell_contents
+    except (KeyError, ValueError):
+        return None
+
+
 def shape(parser):
     """positionals and optionals of a parser: (kind, info) with kind in int/graph/ints/flag/optint/optgraph/other"""
     pos, opts = [], []
@@ -220,6 +275,12 @@ def shape(parser):
             k = "int"
         elif cls == "_StoreAction" and a.nargs == "*" and tname in ("positive_int", "nonnegative_int", "positive_even_int"):
             k = "ints"
+        elif compose_parsers(a) is not None and a.nargs == "*" and not a.option_strings:
+            k = "compose"
+        elif cls == "_StoreAction" and a.nargs == "?" and not a.option_strings and tname in ("positive_int", "int"):
+            k = "optint"
+        elif cls == "_StoreAction" and a.nargs is None and a.type is None and a.choices and not a.option_strings:
+            k = "choice"
         else:
             k = "other"
         if a.option_strings:
@@ -358,6 +419,86 @@ def argvs_for(kind, name, parser, rng, tier):
     return out
 
 
+CONSTRUCTIONS = {"simple": set(graph_args.constructions["simple"]), "bipartite": set(graph_args.constructions["bipartite"]),
+                 "dag": set(graph_args.constructions["dag"])}
+
+
+def compose_argvs(kind, name, parser, rng, tier):
+    """sub-commands whose arguments go through compose_two_parsers: both sub-parsers, flags (incl. mutually
+    exclusive ones) before / after / inside, tokens around the bounds, wrong arities"""
+    pos, opts = shape(parser)
+    act = [a for a in parser._actions if compose_parsers(a) is not None][0]
+    subs = [shape(p)[0] for p in compose_parsers(act)]
+    choices = {}
+    for p in compose_parsers(act):
+        for a in p._actions:
+            if a.choices and not a.option_strings:
+                choices[a.dest] = list(a.choices)
+    flags = [o for o in opts if o[0] == "flag"]
+    out = [[]]
+
+    def good(sub, gi):
+        toks = []
+        for k, t in sub:
+            if k == "int":
+                toks.append([rng.choice(GOOD.get(t, ["3"]) + ["4", "6", "7"])])
+            elif k == "optint":
+                toks.append(rng.choice([[], [rng.choice(["1", "2", "3", "4"])]]))
+            elif k == "choice":
+                toks.append([rng.choice(sum(choices.values(), []) or ["a"])])
+            elif k == "graph":
+                toks.append(list(GRAPHS[gi % len(GRAPHS)]))
+            else:
+                toks.append(["1"])
+        return toks
+    flagsets = [[]] + [[f] for f in flags] + [list(c) for c in itertools.combinations(flags, 2)] + [flags]
+    for sub in subs:
+        for gi in range(len(GRAPHS) if any(k == "graph" for k, _ in sub) else 3):
+            for fs in flagsets:
+                groups = good(sub, gi)
+                toks = flat(groups)
+                fl = [rng.choice(f[1]) for f in fs]
+                out.append(fl + toks)
+                out.append(toks + fl)
+                if fl and toks:
+                    cut = rng.randint(0, len(toks))
+                    out.append(toks[:cut] + fl + toks[cut:])
+                    out.append(fl[:1] + toks + fl[1:])
+        # bounds on every integer position
+        for i, (k, t) in enumerate(sub):
+            if k in ("int", "optint"):
+                for b in BOUNDS:
+                    groups = good(sub, i)
+                    groups[i] = [b]
+                    out.append(flat(groups))
+                    if flags:
+                        out.append([rng.choice(flags)[1][0]] + flat(groups))
+            if k == "choice":
+                for c in sum(choices.values(), []) + ["foo", "", "First", "3"]:
+                    groups = good(sub, 0)
+                    groups[i] = [c]
+                    out.append(flat(groups))
+        # all pairs of the first two integers (parity / order tests of the helpers)
+        if len(sub) >= 2 and sub[0][0] == "int" and sub[1][0] == "optint":
+            for a, b in itertools.product(["1", "2", "3", "4", "5", "6"], ["1", "2", "3", "4", "5", "6", "7"]):
+                out.append([a, b])
+                if flags and rng.random() < 0.3:
+                    out.append([rng.choice(flags)[1][0], a, b])
+        toks = flat(good(sub, 1))
+        for n in range(len(toks)):
+            out.append(toks[:n])
+        out.append(toks + ["9"])
+        out.append(toks + ["x"])
+        out.append(["9"] + toks)
+    for f in flags:
+        out.append([f[1][0]])
+        out.append([f[1][-1], f[1][0], "4"])
+    pool = BOUNDS[:8] + [f for fl in flags for f in fl[1]] + ["complete", "grid", "5", "6", "first", "random", "gnd"]
+    for _ in range(15 if tier == "quick" else 200):
+        out.append([rng.choice(pool) for _ in range(rng.randint(0, 6))])
+    return out
+
+
 def php_argvs(rng, tier):
     out = []
     nums = ["0", "1", "2", "3", "5", "-1", "2.5", "1e1", "x", "1_0", "+3", " 4", "inf", "", "-0", ".5", "nan"]
@@ -401,7 +542,7 @@ def in_fragment(argv, parser):
 
 # ------------------------------------------------------------------ cases
 def build(suite, info):
-    if suite not in ("d_formula", "d_trans", "d_pbgen", "d_php", "d_supported"):
+    if suite not in ("d_formula", "d_trans", "d_pbgen", "d_php", "d_compose", "d_supported"):
         raise ValueError("unknown suite " + suite)
     if suite == "d_supported":
         kind = info["kind"]
@@ -419,10 +560,15 @@ def build(suite, info):
             return "OK " + " ".join(sorted(names + extra))
         return Case(suite, req("dispatch_supported", kind), impl, None, cls="kind={}".format(kind), info=info)
     tool, kind, name, argv = info["tool"], info["kind"], info["name"], [str(a) for a in info["argv"]]
+    rq = dispatch_req(kind, name, argv)
+
     def impl():
         r = run_real(tool, kind, name, argv)
-        return r + " ## " + r        # compared with: regenerated templates ## documented table
-    return Case(suite, dispatch_req(kind, name, argv), impl, None,
+        m = model_answer(rq).split(" ## ")
+        if len(m) != 2:
+            return r + " ## " + r
+        return mask(r, m[0]) + " ## " + mask(r, m[1])   # compared with: regenerated templates ## documented table
+    return Case(suite, rq, impl, None,
                 cls="{}:{}".format(tool, name), nontrivial=bool(argv), info=info)
 
 
@@ -448,6 +594,9 @@ def cases(ctx):
         if name == "php":
             argvs = php_argvs(rng, tier)
             suite = "d_php"
+        elif any(k == "compose" for k, _ in shape(parser)[0]):
+            argvs = compose_argvs(kind, name, parser, rng, tier)
+            suite = "d_compose"
         else:
             argvs = argvs_for(kind, name, parser, rng, tier)
             suite = "d_formula" if kind == 0 else "d_trans"
@@ -464,7 +613,7 @@ def cases(ctx):
         if tier == "quick":
             # the quick tier runs a seed-dependent sample of the structured list (every run of `cli()` builds
             # all the parsers again: ~8 ms); the thorough tier runs all of it
-            cap = 140 if name == "php" else 42
+            cap = 120 if name == "php" else (50 if suite == "d_compose" else 30)
             if len(uniq) > cap:
                 head = uniq[:12]
                 uniq = head + rng.sample(uniq[12:], cap - 12)
@@ -473,6 +622,9 @@ def cases(ctx):
             # pbgen: the same helpers with the other formula class (a sample in the quick tier)
             if kind == 0 and (tier == "thorough" or rng.random() < 0.1):
                 out.append(build("d_pbgen", {"tool": "pbgen", "kind": kind, "name": name, "argv": argv}))
+    reqs = sorted({c.req for c in out if c.suite != "d_supported"})
+    for rq, ans in zip(reqs, common.run_driver(reqs)):
+        MODEL[rq] = ans
     for c in out:
         c.info.setdefault("seed", seed)
         c.info.setdefault("tier", tier)
@@ -484,9 +636,9 @@ def search(ctx, case):
     property; a difference with the regenerated templates only is a gap of the translator / interpreter"""
     if case.suite == "d_supported":
         return None
-    real = case.impl().split(" ## ")[0]
+    real = run_real(case.info["tool"], case.info["kind"], case.info["name"], [str(a) for a in case.info["argv"]])
     model = common.run_driver([case.req])[0].split(" ## ")
-    if len(model) == 2 and model[1] != real:
+    if len(model) == 2 and model[1] != mask(real, model[1]):
         return {"command_line": [case.info["tool"], case.info["name"]] + list(case.info["argv"]),
                 "library_call_made": real, "documented_call": model[1]}
     return None
